@@ -208,3 +208,46 @@ def bool_truth_table(body, prog):
             return None
         table[asg] = next(iter(outs))
     return terms, table
+
+
+def region_table(body, prog, start, stops, header, max_paths=4096):
+    """paths of ONE loop iteration: from block `start` (first block of the loop body) until one of `stops` is reached ('stop', bb) or the
+    path returns to the loop `header` ('latch') or leaves the function ('return'); rows (atoms, outcome, blocks) of the feasible ones"""
+    es = body.edges()
+    succ = {}
+    for (a, b, l) in es:
+        succ.setdefault(a, []).append((b, l))
+    rows = []
+    stack = [(start, [start], [])]
+    n = 0
+    stops = set(stops)
+    while stack:
+        bb, blocks, decs = stack.pop()
+        out = None
+        if bb in stops:
+            out = ("stop", bb)
+        elif body.blocks[bb]["term"]["k"] == "return":
+            out = ("return", bb)
+        if out is None:
+            nxt = succ.get(bb, [])
+            if not nxt:
+                continue        # panic sink / unreachable
+            for (nb, l) in nxt:
+                nd = decs + [(bb, l[1])] if l[0] == "sw" else decs
+                if nb == header:
+                    n += 1
+                    atoms = resolve_locals(body, blocks, path_atoms(body, prog, nd))
+                    if atoms is not None and feasible(atoms):
+                        rows.append((atoms, ("latch", bb), blocks))
+                    continue
+                if nb in blocks:
+                    continue
+                stack.append((nb, blocks + [nb], nd))
+            continue
+        n += 1
+        if n > max_paths:
+            raise TooManyPaths(body.defpath)
+        atoms = resolve_locals(body, blocks, path_atoms(body, prog, decs))
+        if atoms is not None and feasible(atoms):
+            rows.append((atoms, out, blocks))
+    return rows
